@@ -215,7 +215,7 @@ def run_unit(unit, repo, workdir, canary=True):
         cpath = os.path.join(workdir, unit + "_canary.rs")
         ctext, crep = vgen.generate(tpl, repo, cpath, canary=True)
         cr = run_verus_file(cpath)
-        want = [it for it in crep["items"] if it["kind"] in ("fn", "fragment")]
+        want = [it for it in crep["items"] if it["kind"] in ("fn", "fragment") and it.get("canary", True)]
         hit = set()
         for dgn in cr["diags"]:
             if dgn.get("level") == "error" and "assertion failed" in dgn.get("message", ""):
